@@ -321,6 +321,29 @@ package types
 //@   requires wtcOK(t)
 //@   modifies *
 
+// the watcher goroutine of a request context waits for whichever comes first: the request being over (client gone,
+// handler cancelled) or a response having been written. When the request ends first, nobody will ever write to this
+// context, so the watcher itself flushes it - closing the done channel, which is what the handler goroutine parked in
+// HandleRequest waits for - and only then emits "close". When a response was written it only emits "close".
+//@ func (*HttpContext).Flush()
+//@   props C09, C11
+//@   requires c != nil
+//@   modifies c.isDone.v
+//@   ensures [C11.flush.done]    c.isDone.v != 0
+//@   ensures [C09.flush.release] old(c.isDone.v) == 0 ==> calls(chan.close) == 1 && arg(chan.close, 1, ch) == c.done
+//@   ensures [C09.flush.once]    old(c.isDone.v) != 0 ==> calls(chan.close) == 0
+//@ func NewHttpContext$1()
+//@   props C09, C11
+//@   requires c != nil && c.EventEmitter != nil && c.ctx != nil
+//@   modifies *
+//@   ensures [C09.watch.waits]    calls(chan.select) == 1 && arg(chan.select, 1, 1) == ret(context.Context.Done, 1) && arg(chan.select, 1, 2) == old(c.done)
+//@   ensures [C09.watch.releases] ret(chan.select, 1) == 0 ==> calls((*HttpContext).Flush) == 1 && arg((*HttpContext).Flush, 1, c) == c && before((*HttpContext).Flush, 1, EventEmitter.Emit, 1)
+//@   ensures [C09.watch.close]    calls(EventEmitter.Emit) == 1
+//@   callsite EventEmitter.Emit#1
+//@     assert [C09.watch.closeevt] $evt == "close"
+//@   callsite EventEmitter.Emit#2
+//@     assert [C09.watch.closeevt2] $evt == "close"
+
 // what NewHttpContext establishes (none of these fields is assigned afterwards)
 //@ spec ctxOK(c *HttpContext) bool = c != nil && c.EventEmitter != nil && c.request != nil && c.response != nil && c.headers != nil && c.query != nil && c.ResponseHeaders != nil && c.query != c.headers
 
